@@ -1,0 +1,19 @@
+//go:build verif
+
+package driver
+
+import (
+	"net/url"
+	"os"
+)
+
+// VerifNewTempFile exposes newTempFile to the verification harness.
+func VerifNewTempFile(dir, prefix, suffix string) (*os.File, error) {
+	return newTempFile(dir, prefix, suffix)
+}
+
+// VerifSetConfig exposes setConfig to the verification harness.
+func VerifSetConfig(fname string, request url.URL) error { return setConfig(fname, request) }
+
+// VerifRemoveConfig exposes removeConfig to the verification harness.
+func VerifRemoveConfig(fname, config string) error { return removeConfig(fname, config) }
